@@ -17,6 +17,8 @@ import TonVerif.Drv.Heap
 import TonVerif.Drv.Address
 import TonVerif.Drv.VmStack
 import TonVerif.Drv.Cost
+import TonVerif.Drv.Tl
+import TonVerif.Drv.Hashmap
 
 open TonVerif TonVerif.Drv
 
@@ -33,7 +35,9 @@ def handlers : List (String → List String → Option String) := [
   Heap.handle?,
   Address.handle?,
   VmStack.handle?,
-  Cost.handle?
+  Cost.handle?,
+  Tl.handle?,
+  Hashmap.handle?
 ]
 
 def handle (op : String) (args : List String) : String :=
